@@ -631,6 +631,61 @@ def run(run):
     except Unsupported as e:
         ob.inconclusive(str(e))
 
+    ob = run.ob("block-position-anchored", "E2", "parse_block: the position the block starts at is taken BEFORE the Indent token is consumed (the Indent carries the "
+                "position of the first statement's line; what follows it may be the pending newlines of blank lines), and parse_class / parse_type_def decide "
+                "that a body follows by looking ahead over the whole run of newlines to the Indent (peek_if_followed_by) before parse_block is called",
+                ["parse_block", "parse_class", "parse_type_def"])
+    try:
+        clp = []
+        fnb2 = e2.find1(mir, file="src/parse/block.rs", name="parse_block")
+        exb2 = Exec(mir, max_paths=5000)
+        stb2 = State()
+        for p in e2.run_kernel(run, exb2, fnb2, [Ref(exb2.new_cell(stb2, Opq(z3.Const("it", Val), "LexIterator")))], stb2):
+            evs = [e_ for e_ in p.events if e_["name"].startswith("LexIterator::")]
+            ind = [i for i, e_ in enumerate(evs) if e_["name"] == "LexIterator::eat" and getattr(tokarg_of(exb2, p, e_), "variant", None) == "Indent"]
+            sp = [i for i, e_ in enumerate(evs) if e_["name"] == "LexIterator::start_pos"]
+            if not ind:
+                continue
+            clp.append(z3.Implies(conj(p.cond), z3.BoolVal(bool(sp) and sp[0] < ind[0])))
+        nb = len(clp)
+        for fname in ("parse_class", "parse_type_def"):
+            fnc2 = e2.find1(mir, file="src/parse/class.rs", name=fname)
+            stc3 = State()
+            for p in e2.run_kernel(run, exb2, fnc2, [Ref(exb2.new_cell(stc3, Opq(z3.Const("it", Val), "LexIterator")))], stc3):
+                evs = [e_ for e_ in p.events if e_["name"].startswith("LexIterator::")]
+                def fn_name(v):
+                    v = exb2.read_ref(p.state, v) if isinstance(v, Ref) else v
+                    from mirsym import FnItem
+                    if isinstance(v, FnItem):
+                        return v.text.split("::")[-1]
+                    if isinstance(v, Agg) and not v.fields:
+                        return str(v.ty or v.variant).split("::")[-1]
+                    return str(v)[:60]
+                blocks = [i for i, e_ in enumerate(evs) if e_["name"] == "LexIterator::parse" and "parse_block" in fn_name(e_["args"][1])]
+                if not blocks:
+                    continue
+                look = [i for i, e_ in enumerate(evs[:blocks[0]]) if e_["name"] == "LexIterator::peek_if_followed_by" and
+                        getattr(tokarg_of(exb2, p, e_, 1), "variant", None) == "NL" and getattr(tokarg_of(exb2, p, e_, 2), "variant", None) == "Indent"]
+                ok = bool(look) and z3.is_bool(evs[look[-1]]["ret"]) and e2.solve(exb2, list(p.cond) + [z3.Not(evs[look[-1]]["ret"])])[0] == z3.unsat
+                clp.append(z3.Implies(conj(p.cond), z3.BoolVal(bool(ok))))
+        if not nb or len(clp) == nb:
+            raise Unsupported(f"{nb} block paths, {len(clp) - nb} class / type paths with a body")
+        rb = variants_replay("block-position", {
+            "inline-if-body-after-blank-line": ["def f(x: Int) -> Int =>\n    if x > 0 then 1 else 2\nprint(f(1))\n", "def f(x: Int) -> Int =>\n\n    if x > 0 then 1 else 2\nprint(f(1))\n",
+                                                "def f(x: Int) -> Int =>\n    \n    if x > 0 then 1 else 2\nprint(f(1))\n"],
+            "method-inline-if-body-after-blank-line": ["class A\n    def m(self, x: Int) -> Int =>\n        if x > 0 then 1 else 2\n", "class A\n    def m(self, x: Int) -> Int =>\n\n        if x > 0 then 1 else 2\n"],
+            "class-body-after-comment": ["class A\n    def a: Int := 1\ndef z := A()\n", "class A\n# note\n    def a: Int := 1\ndef z := A()\n", "class A\n\n    def a: Int := 1\ndef z := A()\n"],
+            "type-body-after-comment": ["type T\n    def f(x: Int) -> Int\n", "type T\n# note\n    def f(x: Int) -> Int\n"]})
+        e2.prove_each(run, ob, exb2, [], clp, {}, rb)
+        if ob.status == "discharged":
+            r_ = rb({})
+            run.validated += 10
+            if r_["reproduced"]:
+                ob.status = "pending"
+                ob.inconclusive("variants still disagree although the kernels are as specified: " + r_["detail"][:300])
+    except Unsupported as e:
+        ob.inconclusive(str(e))
+
     ob = run.ob("statements-skip-newline-runs", "E2", "parse_statements (file level and inside blocks): a newline token between statements is "
                 "eaten and nothing else happens (no statement is recorded, no error) - so any number of blank or comment lines between two "
                 "statements is invisible; a statement must be followed by a newline, a dedent or the end of input", ["parse_statements::{closure}"])
